@@ -27,6 +27,7 @@ def run(ctx) -> None:
     ctx.guard("C08.formula", formulas)
     ctx.guard("C08.formula", positions_attr)
     ctx.guard("C08.device-private", device_private)
+    ctx.guard("C08.trough-predicate", trough_predicate)
     ctx.guard("C08.regex", regex_agreement)
     ctx.guard("C08.id-template", id_templates)
     ctx.guard("C08.id-template", grid_construction)
@@ -139,6 +140,38 @@ def formulas(ctx, rule: str = "C08.formula") -> None:
         if seen != {True, False}:
             ctx.rep.inconclusive(rule, f"{f.qualname}/paths", f"expected one trough and one plate return path, found {sorted(seen)}")
     ctx.rep.floor(rule, "guarded return paths", n, 4)
+
+
+def trough_predicate(ctx, rule: str = "C08.trough-predicate") -> None:
+    """`Labware.is_trough` - the predicate the Fluent numbering and the partitioning decision branch on - means
+    "virtual rows were given", whatever their number."""
+    lab = ctx.prog.require_class("Labware", rule)
+    f = lab.methods.get("is_trough")
+    if f is None:
+        ctx.rep.inconclusive(rule, "Labware.is_trough", "property not found")
+        return
+    fv = ctx.fv(f)
+    selfn = f.params[0]
+    rets = fv.returns()
+    if not rets:
+        ctx.rep.inconclusive(rule, f.qualname, "no return")
+        return
+    from ..engine import canonical_atom
+
+    for rn, val in rets:
+        raw, at = fv.def_expr(rn.ast.value, rn.id)
+        atom, pol = canonical_atom(fv.res.resolve(raw, at), True)
+        c = f"{f.qualname}/return"
+        w = f.where(rn.ast)
+        is_vr = isinstance(atom, ast.Compare) and len(atom.ops) == 1 and isinstance(atom.ops[0], (ast.Is, ast.Eq)) and attr_of_name(atom.left, selfn, "virtual_rows") \
+            and isinstance(atom.comparators[0], ast.Constant) and atom.comparators[0].value is None
+        if is_vr and not pol:
+            ctx.rep.holds(rule, c, "is_trough == (virtual_rows is not None)", where=w)
+        elif any(isinstance(x, ast.Attribute) and x.attr in ("virtual_rows", "n_rows", "shape", "_volumes", "row_ids", "wells", "_wells") for x in ast.walk(atom)) or isinstance(atom, ast.Constant):
+            ctx.rep.refuted(rule, c, f"is_trough is `{show(raw)[:60]}`: a labware counts as a trough exactly when virtual rows were given (also a single one); with this definition "
+                            "a trough with virtual_rows=1 is numbered and partitioned like a plate", where=w)
+        else:
+            ctx.rep.inconclusive(rule, c, f"cannot relate `{show(raw)[:60]}` to `virtual_rows is not None`", where=w)
 
 
 def device_private(ctx, rule: str = "C08.device-private") -> None:
